@@ -50,6 +50,10 @@ package utils
 //@   ensures[C16] clsOf(pkScript) == mathint(txscript.BindingScriptHashTy) && len(ghosts("bindingTarget", strOf(pkScript))) == 22 ==> (err == nil) == validTarget22(ghosts("bindingTarget", strOf(pkScript)))
 //@   ensures[C16] clsOf(pkScript) == mathint(txscript.BindingScriptHashTy) && len(ghosts("bindingTarget", strOf(pkScript))) == 22 && err == nil ==> PS(result).maturity == consensus.MASSIP0002BindingLockedPeriod && addrKind(PS(result).secondAddress) == 4
 //@   ensures[C16] clsOf(pkScript) == mathint(txscript.BindingScriptHashTy) && err == nil ==> PS(result).addressClass == massutil.AddressClassWitnessV0 && PS(result).secondAddress != nil && addrScript(PS(result).secondAddress) == ghosts("bindingTarget", strOf(pkScript))
+// link between the interface-level observers of a PkScript and the fields of the parsed script: the methods of
+// *pkScriptInfo are one-line accessors (StdScriptAddress = stdAddress.ScriptAddress(), StdEncodeAddress =
+// stdAddress.EncodeAddress()); assumed here so that callers holding the interface value can use the script-level facts
+//@   assume err == nil ==> ghosts("psStdScript", result) == ghosts("scriptHash32", strOf(pkScript)) && ghosts("psStdEnc", result) == ghosts("encOf", 1, ghosts("scriptHash32", strOf(pkScript)))
 
 // the observers of the parsed script are the stored fields
 //@ func (*pkScriptInfo).Maturity
